@@ -415,6 +415,48 @@ Definition arg_shown (entry : bool) (raw : list N) : list N :=
               else [34] ++ shown (cstr raw) ++ [34] in
   if entry then 40 :: body ++ [41] else body.
 
+(* ---- the argument text with its buffer (cmds/replay.c print_args / print_char after 618ee80) ----
+   The text is written piece by piece (one print_args call = one piece: a separator, a quote, ONE escaped character)
+   into a buffer of [room] bytes: a piece that does not fit (its length >= what is left, one byte is kept for the NUL)
+   is dropped as a whole and nothing more is taken. *)
+Definition put (st : list N * N) (piece : list N) : list N * N :=
+  let '(out, room) := st in
+  if room <=? 1 then st
+  else if room <=? N.of_nat (length piece) then (out, 1)
+  else (out ++ piece, room - N.of_nat (length piece)).
+Definition put_all (st : list N * N) (pieces : list (list N)) : list N * N := fold_left put pieces st.
+(* the arguments of a record: strings (payload bytes, a C string) and chars *)
+Inductive argv := AStr (raw : list N) | AChr (c : N).
+Definition arg_pieces (a : argv) : list (list N) :=
+  match a with
+  | AStr raw => if is_null_str raw then [[78; 85; 76; 76]]
+                else [92; 34] :: map json_escape_char (cstr raw) ++ [[92; 34]]
+  | AChr c => [39] :: json_escape_char c :: [[39]]
+  end.
+(* the argument loop of get_argspec_string: ', ' between arguments, `if (len <= 2) break` after each *)
+Fixpoint args_loop (first : bool) (args : list argv) (st : list N * N) : list N * N :=
+  match args with
+  | [] => st
+  | a :: r =>
+      let st1 := if first then st else put st [44; 32] in
+      let st2 := put_all st1 (arg_pieces a) in
+      if snd st2 <=? 2 then st2 else args_loop false r st2
+  end.
+Definition SPEC_BUF : N := 2048.                     (* char spec_buf[2048] in dump_chrome_task_rstack *)
+(* ENTRY: '(' a1, a2, ... ')' ; EXIT: the return value alone (the first retval spec) *)
+Definition args_text (entry : bool) (args : list argv) : list N :=
+  if entry then fst (put (args_loop true args (put ([], SPEC_BUF) [40])) [41])
+  else match args with [] => [] | a :: _ => fst (put_all ([], SPEC_BUF) (arg_pieces a)) end.
+
+(* decoding the two-byte escapes backslash-backslash and backslash-quote (all that these texts contain) *)
+Fixpoint unesc (pending : bool) (s : list N) : list N :=
+  match s with
+  | [] => []
+  | c :: r => if pending then c :: unesc false r
+              else if c =? 92 then unesc true r else c :: unesc false r
+  end.
+Definition unescape (s : list N) : list N := unesc false s.
+
 (* dump_chrome_footer: the text after the last event *)
 Definition bytes_version : list N := [34; 118; 101; 114; 115; 105; 111; 110; 34; 58; 34; 117; 102; 116; 114; 97; 99; 101; 32].
 Definition chrome_metadata_members (version date : list N) (cmdline : option (list N)) : list N :=
@@ -687,7 +729,7 @@ Record case := {
   k_mermaid : list (list N);
   k_chrome : list cev;
   k_json_ok : bool;                             (* the whole --chrome output parsed as JSON *)
-  k_args : list (option (list N));              (* per record: the payload string, if it has one *)
+  k_args : list (option (list argv));           (* per record: its argument payload, if it has one *)
   k_chrome_args : list (option (list N))        (* per printed event: the decoded arguments / retval member *)
 }.
 Definition k_stream (k : case) : stream :=
@@ -733,8 +775,8 @@ Fixpoint opts_eqb (a b : list (option (list N))) : bool :=
   end.
 (* the i-th printed event belongs to the i-th record; the closing events at the end carry nothing *)
 Definition chrome_args (k : case) : list (option (list N)) :=
-  map (fun ra : (N * bool * N * N) * option (list N) =>
-         let '((_, b, _, _), a) := ra in option_map (arg_shown b) a) (combine (k_recs k) (k_args k))
+  map (fun ra : (N * bool * N * N) * option (list argv) =>
+         let '((_, b, _, _), a) := ra in option_map (fun l => unescape (args_text b l)) a) (combine (k_recs k) (k_args k))
   ++ repeat None (length (k_chrome k) - length (k_recs k)).
 Definition agree_chrome (k : case) : bool :=
   cevs_eqb (chrome_events (k_tasks k) (k_stream k)) (k_chrome k)
